@@ -102,6 +102,22 @@ def lin_case(ctx, S, a, b, m, tag):
         ctx.path("linear.partial-judgement")
     moved = (a2, b2) != (a, b)
     ctx.judge("linear", HELD, {"scale": "linear", "domain": [a, b], "m": m, "niced": [a2, b2]}, nontrivial=moved and full, dig="L%r|%r|%r" % (a, b, m))
+    if moved and hash((a, b)) % 3 == 0:
+        # nice() again on the same object: the niced domain is a domain like any other (no inward move, < 2 steps, round ends)
+        try:
+            s.nice(m) if m is not None else s.nice()
+            a3, b3 = s.domain()
+            ticks3 = list(s.ticks(m)) if m is not None else list(s.ticks())
+        except Exception as e:
+            ctx.judge("linear", VIOLATED, dict(case, second_nice=True), finding="raised %s: %s" % (type(e).__name__, e), key="linear:raised")
+            return
+        probs, full = T.judge_linear_nice(a2, b2, a3, b3, ticks3)
+        ctx.path("linear.nice-twice" + ("-moved-again" if (a3, b3) != (a2, b2) else ""))
+        if probs:
+            key = "linear:" + nice_key(probs[0])
+            if float_extra_step(a2, b2, a3, b3, ticks3, probs):
+                key = KEY_FLOAT_STEP
+            ctx.judge("linear", VIOLATED, {"scale": "linear", "domain": [a, b], "m": m, "second_nice": True}, finding={"problems": probs, "first": [a2, b2], "second": [a3, b3]}, key=key)
 
 
 def time_case(ctx, S, a, b, m, tag):
@@ -143,6 +159,20 @@ def time_case(ctx, S, a, b, m, tag):
         ctx.path("time.partial-judgement")
     moved = (a2, b2) != (a, b)
     ctx.judge(stratum, HELD, {"scale": "time", "domain": [a, b], "m": m, "niced": [a2, b2]}, nontrivial=moved and full, dig="T%s|%s|%r" % (a, b, m))
+    if moved and hash((a, b)) % 3 == 0 and a2 != b2:
+        # nice() again on the same object: judged as a case of its own against the ticks of the niced domain
+        try:
+            u = S.TimeScale().domain([a2, b2])
+            before2 = u.ticks(m) if m is not None else u.ticks()
+            s.nice(m) if m is not None else s.nice()
+            a3, b3 = s.domain()
+        except Exception as e:
+            ctx.judge(stratum, VIOLATED, dict(case, second_nice=True), finding="raised %s: %s" % (type(e).__name__, e), key="time:raised " + type(e).__name__)
+            return
+        probs, full = T.judge_time_nice(a2, b2, a3, b3, before2)
+        ctx.path("time.nice-twice" + ("-moved-again" if (a3, b3) != (a2, b2) else ""))
+        if probs:
+            ctx.judge(stratum, VIOLATED, dict(case, second_nice=True), finding={"problems": probs, "first": [a2, b2], "second": [a3, b3]}, key="time:" + nice_key(probs[0]))
 
 
 def worker(ctx, shard):
